@@ -164,6 +164,18 @@ theorem importAll_frame (o : Nat) : ∀ (hs : List Handle) (ds : List Nat) (s : 
         intro j hj; simp at hj
         rw [this.2 j hj.2, allocCustomShared_slots _ _ _ _ _ hj.1]
 
+/-- replacing the content of slot `i` by a fresh region (drop + allocate) -/
+theorem replace_bytes (s : State) (i : Nat) (b : List Nat) (c a : Nat) (m : Bool) (r : Nat) (hlt : r < s.regions.length) :
+    regionBytes (allocStd (dropSlot s i) i b c a m).1 r = regionBytes s r ∧
+    r < (allocStd (dropSlot s i) i b c a m).1.regions.length := by
+  have h1 : r < (dropSlot s i).regions.length := by rw [dropSlot_length]; exact hlt
+  exact ⟨by rw [allocStd_bytes _ _ _ _ _ _ _ h1, dropSlot_bytes], Nat.lt_of_lt_of_le h1 (allocStd_length _ _ _ _ _ _)⟩
+
+theorem recap_bytes (s : State) (r0 : Nat) (reg : Region) (bs : List Nat) (c : Nat) (hr : s.regions[r0]? = some reg) (r : Nat) :
+    regionBytes (recap s r0 reg bs c) r = if r = r0 then bs else regionBytes s r :=
+  regionBytes_set (s := s) (s' := recap s r0 reg bs c)
+    (reg' := { reg with bytes := bs, cap := c, claimed := reg.claimed.map (fun _ => c) }) rfl hr r
+
 /-- region `r` is visible through something the operation does not consume: a client variable
 outside the operation's target slots, or a handle kept by an owner (exported struct, wrapper) -/
 def Protected (s : State) (tg : List Nat) (r : Nat) : Prop :=
@@ -351,6 +363,97 @@ theorem step_bytes (s : State) (op : Op) (h : Inv s) (r : Nat) (hp : Protected s
         · rfl
       · rfl
     · rfl
+  | allocGen d len cap align seed asMut zeroed =>
+    simp only [step, opAllocGen]; split
+    · exact allocStd_bytes _ _ _ _ _ _ _ hlt
+    · rfl
+  | resize i n val =>
+    simp only [step, opResize]; split
+    · rename_i r0 l hi
+      split
+      · simp only [opExtend, hi]
+        split
+        · rename_i reg hr
+          have := h.mut_excl i r0 l hi; rw [rcOf_some hr] at this
+          exact setBytes_protected h hp (by simp [Op.targets]) hi rfl hr this
+            (reg' := { reg with bytes := reg.bytes ++ List.replicate (n - l) (val % 256), cap := grownCap reg.cap (l + (n - l)), claimed := reg.claimed.map (fun _ => grownCap reg.cap (l + (n - l))) }) rfl
+        · rfl
+      · simp only [opTruncate, hi]
+        split
+        · rename_i reg hr
+          split
+          · rfl
+          · have := h.mut_excl i r0 l hi; rw [rcOf_some hr] at this
+            exact setBytes_protected h hp (by simp [Op.targets]) hi rfl hr this
+              (s' := setSlot (setRegion s r0 { reg with bytes := reg.bytes.take n }) i (.mut r0 n)) rfl
+        · rfl
+    · rfl
+  | shrinkBuf i =>
+    simp only [step, opShrinkBuf]; split
+    · rename_i hd hi
+      split
+      · rename_i reg hr
+        have key : ∀ desired hd', regionBytes (shrinkTo s i hd reg desired hd').1 r = regionBytes s r := by
+          intro desired hd'
+          unfold shrinkTo; split
+          · rename_i hc
+            exact setBytes_protected h hp (by simp [Op.targets]) hi rfl hr hc.2.1
+              (s' := setSlot (recap s hd.region reg (reg.bytes.take desired) desired) i (.buf hd'))
+              (reg' := { reg with bytes := reg.bytes.take desired, cap := desired, claimed := reg.claimed.map (fun _ => desired) }) rfl
+          · rfl
+        split <;> exact key _ _
+      · rfl
+    · rfl
+  | shrinkMut i =>
+    simp only [step, opShrinkMut]; split
+    · rename_i r0 l hi
+      split
+      · rename_i reg hr
+        split
+        · rw [recap_bytes _ _ _ _ _ hr]
+          split
+          · subst_vars; simp [regionBytes, hr]
+          · rfl
+        · rfl
+      · rfl
+    · rfl
+  | roundTrip srcs =>
+    simp only [step, opRoundTrip]; split
+    · split <;> rfl
+    · rfl
+  | binaryMut i j =>
+    simp only [step, opBinaryMut]; split
+    · split
+      · split
+        · split
+          · exact (replace_bytes _ _ _ _ _ _ _ hlt).1
+          · rfl
+        · rfl
+      · rfl
+    · rfl
+  | unaryMut2 v n delta =>
+    simp only [step, opUnaryMut2]; split
+    · split
+      · have key : ∀ (s1 : State) okn validity hv, r < s1.regions.length → regionBytes s1 r = regionBytes s r →
+            regionBytes (um2Finish s1 v n delta hv okn validity).1 r = regionBytes s r := by
+          intro s1 okn validity hv hl1 he1
+          unfold um2Finish; split
+          · rename_i reg hreg
+            split
+            · have a := replace_bytes s1 v ((reg.bytes.take hv.len).map (fun b => (b + delta) % 256)) (builderCap reg hv.len) 1 false r hl1
+              have b := replace_bytes _ n validity validity.length 1 false r a.2
+              rw [b.1, a.1, he1]
+            · rw [(replace_bytes s1 n validity validity.length 1 false r hl1).1, he1]
+          · exact he1
+        apply key
+        · split
+          · rw [dropSlot_length]; exact hlt
+          · exact hlt
+        · split
+          · exact dropSlot_bytes _ _ _
+          · rfl
+      · rfl
+    · rfl
 
 theorem setSlot_other (s : State) (i j : Nat) (sl : Slot) (hne : j ≠ i) : (setSlot s i sl).slots[j]? = s.slots[j]? := by
   simp [setSlot, List.getElem?_set, Ne.symm hne]
@@ -506,6 +609,78 @@ theorem step_slots (s : State) (op : Op) (j : Nat) (hj : j ∉ op.targets) :
     · split
       · split
         · rw [allocStd_slots _ _ _ _ _ _ _ hj, dropSlot_other _ _ _ hj]
+        · rfl
+      · rfl
+    · rfl
+  | allocGen d len cap align seed asMut zeroed =>
+    simp only [Op.targets, List.mem_singleton] at hj
+    simp only [step, opAllocGen]; split
+    · exact allocStd_slots _ _ _ _ _ _ _ hj
+    · rfl
+  | resize i n val =>
+    simp only [Op.targets, List.mem_singleton] at hj
+    simp only [step, opResize]; split
+    · rename_i r0 l hi
+      split
+      · simp only [opExtend, hi]
+        split
+        · exact setSlot_other _ _ _ _ hj
+        · rfl
+      · simp only [opTruncate, hi]
+        split
+        · split
+          · rfl
+          · exact setSlot_other _ _ _ _ hj
+        · rfl
+    · rfl
+  | shrinkBuf i =>
+    simp only [Op.targets, List.mem_singleton] at hj
+    simp only [step, opShrinkBuf]; split
+    · split
+      · have key : ∀ hd reg desired hd', (shrinkTo s i hd reg desired hd').1.slots[j]? = s.slots[j]? := by
+          intro hd reg desired hd'
+          unfold shrinkTo; split
+          · exact setSlot_other _ _ _ _ hj
+          · rfl
+        split <;> exact key _ _ _ _
+      · rfl
+    · rfl
+  | shrinkMut i =>
+    simp only [step, opShrinkMut]; split
+    · split
+      · split <;> rfl
+      · rfl
+    · rfl
+  | roundTrip srcs =>
+    simp only [step, opRoundTrip]; split
+    · split <;> rfl
+    · rfl
+  | binaryMut i k =>
+    simp only [Op.targets, List.mem_singleton] at hj
+    simp only [step, opBinaryMut]; split
+    · split
+      · split
+        · split
+          · rw [allocStd_slots _ _ _ _ _ _ _ hj, dropSlot_other _ _ _ hj]
+          · rfl
+        · rfl
+      · rfl
+    · rfl
+  | unaryMut2 v n delta =>
+    simp only [Op.targets, List.mem_cons, List.mem_singleton, not_or, List.not_mem_nil, or_false] at hj
+    simp only [step, opUnaryMut2]; split
+    · split
+      · have key : ∀ (s1 : State) okn validity hv, s1.slots[j]? = s.slots[j]? →
+            (um2Finish s1 v n delta hv okn validity).1.slots[j]? = s.slots[j]? := by
+          intro s1 okn validity hv he1
+          unfold um2Finish; split
+          · split
+            · rw [allocStd_slots _ _ _ _ _ _ _ hj.2, dropSlot_other _ _ _ hj.2, allocStd_slots _ _ _ _ _ _ _ hj.1, dropSlot_other _ _ _ hj.1, he1]
+            · rw [allocStd_slots _ _ _ _ _ _ _ hj.2, dropSlot_other _ _ _ hj.2, he1]
+          · exact he1
+        apply key
+        split
+        · exact dropSlot_other _ _ _ hj.2
         · rfl
       · rfl
     · rfl
